@@ -8,8 +8,8 @@
      - reset_assertions resets declared_vars to one empty level after the command succeeded;
      - every silent command and check-sat read ONE LINE of the reply pipe, get-value reads ONE
        S-EXPRESSION and then the rest of its line;
-     - get_value / get_model are not decorated with clear_pending_pop, and get_value does not
-       declare the symbols of its term (open finding get-value-undeclared-symbol);
+     - get_value / get_model are not decorated with clear_pending_pop; get_value gives symbols
+       that are not declared their model-completion default instead of sending them;
      - list.pop() / list[-1] on an empty Python list raise IndexError (werr below).
    Abstractions: symbols are numbers; a formula is an opaque atom with its list of free symbols
    (after `formula.simplify()`), or the negation of a formula; reply texts are abstracted to
@@ -137,8 +137,11 @@ Definition pop (n : nat) : M :=
 Definition solve : M := seq clear_pending (emit CCheckSat).
 Definition reset_assertions : M :=
   seq clear_pending (seq (emit CResetAssertions) w_reset_record).
-(* not decorated *)
-Definition get_value (t : list sym) : M := emit (CGetValue t).
+(* not decorated.  Symbols of the term that the wrapper has not declared (no assertion mentions
+   them) are replaced by default constants before the query is sent: the query mentions only
+   declared symbols *)
+Definition get_value (t : list sym) : M :=
+  guard (fun w => (w, [CGetValue (filter (fun x => declared_in x (decl w)) t)])).
 (* for level in self.declared_vars: for s in level: self.get_value(s) *)
 Definition get_model : M := guard (fun w =>
   (w, map (fun s => CGetValue [s]) (concat (decl w)))).
